@@ -22,6 +22,7 @@ From RTA.Spec Require Import NonPreemptive.
 From Coq Require Import Permutation.
 From RTA.Spec Require Import Executor ExecutorChains.
 From RTA.Proofs Require Import SupplyProofs ReservationProofs FifoEndToEnd EsSound PpSound ChainSound RrSound ExecutorBridge ChainBridge.
+From RTA.Proofs Require Import GeneralCosts EcrtsGeneralCosts.
 
 (* every reservation schedule a supply model admits delivers at least provided_service in EVERY window *)
 Theorem C04_supply_bound_holds_for_every_budget_placement : forall sb sigma, wf_sb sb -> supply_admits sb sigma ->
@@ -153,3 +154,17 @@ Theorem C04_processing_chain_sound_for_the_executor : forall dbg sb (tasks : lis
 Proof. exact chain_sound_executor. Qed.
 Definition C04_chain_for_the_executor_nonvacuous := chain_sound_executor_nonvacuous.
 Definition C04_executor_without_chains_is_the_executor := run_chains_no_chain.
+
+(* ---- GENERAL JOB-COST MODELS (Proofs/EcrtsGeneralCosts.v; gtask, grb_of, respects_gcurves, respects_cost_models as in Props/C03.v):
+        event source exactly as above; polling-point and timer analyses with the analysed AND the interfering callbacks general.
+        own_wcet = least_wcet_in_interval is sound although a job may cost less than any frame: the argument only needs
+        cost_of_jobs k + least_wcet m <= cost_of_jobs (k + 1) for k < m (least_wcet_item).  tie_free: the analysed callback's
+        releases are pairwise distinct or its cost model is scalar -- needed because respects_cost_models lets the enumeration order
+        of simultaneous releases be chosen freely while fifo_within_task lets the dispatcher serve them in any order
+        (C04_general_costs_tie_order_witness).  The scalar theorems are corollaries (pp_sound_from_gen, ...). ---- *)
+Definition C04_event_source_sound_general_costs := event_source_sound_gen.
+Definition C04_polling_point_callback_sound_general_costs := pp_sound_gen.
+Definition C04_timer_sound_general_costs := timer_sound_gen.
+Definition C04_general_costs_nonvacuous := pp_sound_gen_nonvacuous.
+Definition C04_general_costs_tie_order_witness := pp_tie_order_witness.
+Definition C04_ecrts19_total_for_general_cost_models := e_pp_total_gen.
